@@ -124,6 +124,7 @@ package gossip
 
 //@ iface (failureDetector).SuspicionLevel
 //@   acquires 35
+//@   ensures[level] result == suspAt(nodeID)
 //@ iface (failureDetector).Remove
 //@   acquires 35
 //@ iface (failureDetector).Report
